@@ -34,8 +34,9 @@ META = {
             'of the spec and validated to their end); sampled executions, random multi-fault histories over 13 '
             'datatypes incl. loadParameters(), faults at every concrete FS call (buffered and unbuffered writes) and '
             'byte-level corruption sweeps of stored files are validated by TLC as traces (Trace_Persistent).',
-    'note': 'Trusted: TLC; the FakeFS (writes are applied unbuffered per write() call, a crash drops all later '
-            'operations, no reordering of rename vs data as a real disk without fsync could do); datatypes '
+    'note': 'Trusted: TLC; the FakeFS (written data reaches the disk per write() call or only at flush/close - both '
+            'modes are run; a crash drops all later operations; no reordering of rename vs data as a real disk '
+            'without fsync could do); datatypes '
             'validate(import_value(x)) as the oracle for "entry is usable" (C01/C02 territory); I/O errors while '
             '*reading* at start-up and concurrent saves from several threads are outside the alphabet.',
     'tech': 'TLA+ spec (Persistent.tla) + TLC model checking; spec->code replay of all TLC behaviours with fault '
